@@ -671,5 +671,9 @@ def run(chk, fb, tier):
     copyrule.check(chk, fb, "DC", lambda c: "Bpp/Numeric/Function/" in c["file"] and any(c["file"].endswith(u.replace(".cpp", ".h")) for u in UNITS), floor=1)
     chk.rule("D7", "abscissa/value pairing: pairs grounded in evaluation events and bracket points, propagated through matching transfers of one block; a block that moves an abscissa from one point and the paired value from another is refuted")
     _d7(chk, fb, fns)
+    from . import argswap as _argswap
+    chk.rule("DA", "argument/parameter name agreement at forwarding calls in the anchored units (same-typed parameters must not be swapped)")
+    _af = ('src/Bpp/Numeric/Function/AbstractOptimizer.cpp', 'src/Bpp/Numeric/Function/BfgsMultiDimensions.cpp', 'src/Bpp/Numeric/Function/ConjugateGradientMultiDimensions.cpp', 'src/Bpp/Numeric/Function/PowellMultiDimensions.cpp', 'src/Bpp/Numeric/Function/DownhillSimplexMethod.cpp', 'src/Bpp/Numeric/Function/SimpleMultiDimensions.cpp', 'src/Bpp/Numeric/Function/SimpleNewtonMultiDimensions.cpp', 'src/Bpp/Numeric/Function/BrentOneDimension.cpp', 'src/Bpp/Numeric/Function/GoldenSectionSearch.cpp', 'src/Bpp/Numeric/Function/NewtonOneDimension.cpp', 'src/Bpp/Numeric/Function/NewtonBacktrackOneDimension.cpp', 'src/Bpp/Numeric/Function/OneDimensionOptimizationTools.cpp', 'src/Bpp/Numeric/Function/DirectionFunction.cpp', 'src/Bpp/Numeric/Function/MetaOptimizer.cpp', 'src/Bpp/Numeric/Function/OptimizationStopCondition.cpp', 'src/Bpp/Numeric/AutoParameter.cpp')
+    _argswap.check(chk, fb, "DA", [f_ for f_ in fb.concrete_fns() if f_.body is not None and any(f_.relfile.endswith(x_) for x_ in _af)], 1)
     chk.assume("nested optimiser objects (line search, meta-optimiser components) run their own capped optimize() loop")
     chk.assume("outward bracketing loops terminate for objectives bounded below (value-dependent, not decided)")
